@@ -67,6 +67,7 @@ func gnum(args []string) error {
 	floats := fs.String("floats", "", "write {lit,bits} records of float cases here (ndjson)")
 	expect := fs.Int64("expect", -1, "states TLC reported")
 	prop := fs.String("property", "C03", "property id")
+	verdict := fs.Bool("verdict", false, "only compare accept/reject (every state, also the literals the spec does not accept)")
 	fs.Parse(args)
 	f, err := os.Open(*dump)
 	if err != nil {
@@ -74,9 +75,13 @@ func gnum(args []string) error {
 	}
 	defer f.Close()
 	var cases []numCase
+	var rejects [][]byte
 	n, err := tla.ReadDump(f, func(st tla.State) error {
 		o := st["out"]
 		if !o.Field("ok").B {
+			if *verdict && len(st["lit"].Bytes()) > 0 {
+				rejects = append(rejects, st["lit"].Bytes())
+			}
 			return nil
 		}
 		cases = append(cases, numCase{lit: st["lit"].Bytes(), cls: o.Field("cls").S, canon: string(o.Field("canon").Bytes())})
@@ -109,6 +114,24 @@ func gnum(args []string) error {
 		pre, post string
 		obj       bool
 	}{{"[", "]", false}, {`{"a":`, "}", true}, {"[ ", " ,1]", false}, {"[", "\n]", false}, {`{"a":`, "\t}", true}}
+	for _, lit := range rejects {
+		for ti, t := range templates {
+			for _, avx := range []bool{run.HasAVX512, false} {
+				text := []byte(t.pre + string(lit) + t.post)
+				cfg := run.Cfg{AVX512: avx, Copy: ti%2 == 0}
+				_, err := run.Parse(text, cfg, nil)
+				rep.Evaluations++
+				rep.Nontrivial++
+				if err == nil {
+					rep.Add(run.Mismatch{Property: *prop, Sig: fmt.Sprintf("%s:reject:%d", lit, ti), Input: run.Hex(text), Text: string(text), Cfg: cfg,
+						Want: "rejected (the literal is not a finite RFC 8259 number)", Got: "accepted"})
+				}
+				if !run.HasAVX512 {
+					break
+				}
+			}
+		}
+	}
 	for _, c := range cases {
 		for ti, t := range templates {
 			text := []byte(t.pre + string(c.lit) + t.post)
@@ -120,6 +143,10 @@ func gnum(args []string) error {
 			}
 			if err != nil {
 				bad("accepted as "+c.cls, "rejected: "+err.Error())
+				continue
+			}
+			if *verdict {
+				rep.Nontrivial++
 				continue
 			}
 			it, err := elemIter(pj, t.obj)
